@@ -184,6 +184,15 @@ def judge_seed(seed, n):
         out.append(("C07|sample-nums|depend-on-contents", f"seed {seed!r}: numbers differ for lists of equal length and different contents"))
     if [c.sample_num for c in longer][:n] != [c.sample_num for c in a]:
         out.append(("C07|sample-nums|depend-on-length", f"seed {seed!r}: a card's number depends on the list length"))
+    # cards that already carry numbers (a second call, a re-seed, numbers read in with the records): the numbers
+    # are a function of the seed and the position only, so they are overwritten
+    stale = [CVR(id=f"w{i}", votes={}, sample_num=(None if i % 2 else 7 + i)) for i in range(n)]
+    CVR.assign_sample_nums(stale, SHA256(seed))
+    again = [CVR(id=f"v{i}", votes={}) for i in range(n)]
+    CVR.assign_sample_nums(again, SHA256("another seed"))
+    CVR.assign_sample_nums(again, SHA256(seed))
+    if [c.sample_num for c in stale] != want[:n] or [c.sample_num for c in again] != want[:n]:
+        out.append(("C07|sample-nums|depend-on-previous-numbers", f"seed {seed!r}: cards that already carried a sample number do not get the seeded stream"))
     if len(set(c.sample_num for c in longer)) != n + 3:
         out.append(("C07|sample-nums|not-distinct", f"seed {seed!r}: repeated sample numbers"))
     return out
